@@ -162,6 +162,21 @@ CHECKS = {
 ALL = ['C%02d' % i for i in range(1, 21)]
 
 
+def rule_of(mod_path):
+    """the RULE text the check writes into its evidence file (kept up to date with the generator)"""
+    import ast
+    tree = ast.parse(open(mod_path).read())
+    for node in tree.body:
+        if isinstance(node, ast.Assign) and any(getattr(t, 'id', None) == 'RULE' for t in node.targets):
+            return ast.literal_eval(node.value)
+    return ''
+
+
+COMMON = (' Every run first replays the saved inputs of the check (regress/: shrunk failing cases of every defect found or seeded '
+          'so far), then the deterministic sweeps, then the generated search (every fourth shard with DEBUG logging enabled); every '
+          'case runs under a real-time watchdog that reports code that does not terminate.')
+
+
 def main():
     checks = []
     na = []
@@ -169,6 +184,7 @@ def main():
         mod = os.path.join(HERE, 'checks', pid.lower() + '.py')
         if pid in CHECKS and os.path.exists(mod):
             tech, text, note, ref = CHECKS[pid]
+            text = text + COMMON + ' Generator and oracle as run now: ' + rule_of(mod)
             checks.append({
                 'property_id': pid,
                 'quick_cmd': '%s run_check.py %s --tier quick' % (PY, pid),
@@ -207,7 +223,8 @@ def main():
         'checks': checks,
         'notes': 'All checks: exit 0 held / exit 1 + VIOLATION line / exit 2 harness error. VERIF_SEED selects the Hypothesis seed '
                  '(shard i uses seed*1000+i). VERIF_REPO overrides the tree under test (sensitivity experiments only). '
-                 'known_findings.json lists recorded genuine defects (KNOWN-FINDING lines) and fixed ones.',
+                 'known_findings.json lists recorded genuine defects (KNOWN-FINDING lines) and fixed ones. '
+                 'VERIF_HANG_S (default 600) is the per-case watchdog; VERIF_NO_REGRESS=1 skips the saved inputs (used when harvesting them).',
         'not_applicable': na,
     }
     with open(os.path.join(HERE, 'MANIFEST.json'), 'w') as fh:
